@@ -201,10 +201,15 @@ def find_type(text, kind, name, m=None):
             elif ch == '{' and depth <= 0:
                 break
             elif ch == ';' and depth <= 0:
+                semi = k
                 k = -1
                 break
             k += 1
-        if k < 0 or k >= len(m):
+        if k < 0:
+            # unit / tuple struct: `struct X;` / `struct X(T);`
+            hits.append(dict(start=mo.start(), body_open=semi, body_close=semi))
+            continue
+        if k >= len(m):
             continue
         hits.append(dict(start=mo.start(), body_open=k, body_close=match_close(m, k)))
     if len(hits) != 1:
